@@ -158,6 +158,7 @@ class ReadDeviceInformationResponse(ModbusResponse):
         packet = struct.pack('>BBB', self.sub_function_code,
                              self.read_code, self.conformity)
         self.space_left = 253 - 6
+        self.number_of_objects = 0
         objects = b''
         try:
             for (object_id, data) in iteritems(self.information):
